@@ -126,6 +126,9 @@ pub fn gen_unary(r: &mut Rng, k: u64) -> OpCase {
                 rand_quarters_nz(r, n)
             } else if matches!(kind, OpKind::Recip) && r.chance(1, 2) {
                 rand_quarters_nz(r, n)
+            } else if matches!(kind, OpKind::Powf(e) if e >= 1.0) && r.chance(1, 3) {
+                // exponents >= 1 are differentiable at 0 (derivative 0, or 1 for exponent 1)
+                rand_pos(r, n).into_iter().map(|x| if r.chance(1, 3) { 0.0 } else { x }).collect()
             } else {
                 rand_pos(r, n)
             }
